@@ -331,6 +331,8 @@ class ShortTimeFourierTransformFrameComputer(LinearFilterBankFrameComputer):
         else:
             self._frame_length = int(0.001 * frame_length_ms * bank.sampling_rate)
         self._buf = np.empty(self._frame_length, dtype=np.float64)
+        # the most recent (at most) frame_length samples of the stream, for finalize
+        self._hist = np.empty(0, dtype=np.float64)
         if window_function is None:
             if frame_style == "causal":
                 window_function = GammaWindow()
@@ -466,6 +468,12 @@ class ShortTimeFourierTransformFrameComputer(LinearFilterBankFrameComputer):
         buf_len = self._buf_len
         chunk_len = len(chunk)
         total_len = chunk_len + buf_len
+        if chunk_len >= self._frame_length:
+            self._hist = np.array(chunk[-self._frame_length :], dtype=np.float64)
+        elif chunk_len:
+            self._hist = np.concatenate(
+                [self._hist[chunk_len - self._frame_length :], chunk]
+            )
         noncausal_first = self._frame_style == "centered"
         noncausal_first &= self._first_frame
         if noncausal_first:
@@ -567,7 +575,14 @@ class ShortTimeFourierTransformFrameComputer(LinearFilterBankFrameComputer):
             pad_right = (num_frames - 1) * frame_shift + frame_length - buf_len
             pad_right -= pad_left
             coeffs = np.empty((num_frames, self.num_coeffs), dtype=self._chunk_dtype)
-            frames = np.pad(self._buf[-buf_len:], (pad_left, pad_right), "symmetric",)
+            # the signal's end is reflected. If that reaches further back than the
+            # unconsumed remainder, take the difference from the recent history
+            extra = max(0, min(len(self._hist), pad_right) - buf_len)
+            frames = np.pad(
+                self._hist[-(buf_len + extra) :] if extra else self._buf[-buf_len:],
+                (pad_left, pad_right),
+                "symmetric",
+            )[extra:]
             for frame_idx in range(num_frames):
                 frame = frames[
                     frame_idx * frame_shift : frame_idx * frame_shift + frame_length
@@ -576,6 +591,7 @@ class ShortTimeFourierTransformFrameComputer(LinearFilterBankFrameComputer):
         else:
             coeffs = np.empty((0, self.num_coeffs), dtype=self._chunk_dtype)
         self._buf_len = 0
+        self._hist = self._hist[:0]
         self._started = False
         self._first_frame = True
         return coeffs
